@@ -26,8 +26,8 @@ FILEMAP = {
     "capture_manager.py": ["C05"], "capture_group_index.py": ["C05"], "capture_group_interface.py": ["C05"],
     "capture_group_builders.py": ["C05"], "special_register_capture_group_type_builder.py": ["C05"],
     "capture_group_instruction.py": ["C05", "C07"], "capture_group_operand.py": ["C05"], "capture_group_register.py": ["C05"],
-    "deref_classes.py": ["C06", "C03", "C17"], "deref.py": ["C06", "C03"],
-    "consumer.py": ["C07", "C08", "C10", "C11", "C12"],
+    "deref_classes.py": ["C06", "C03", "C17"], "deref.py": ["C06", "C03", "C05"],
+    "consumer.py": ["C07", "C08", "C10", "C11", "C12", "C17"],
     "matched_observers.py": ["C11", "C12", "C20"],
     "match.py": ["C12", "C14", "C15", "C18", "C08"],
     "asm_manual_parser_w_regex.py": ["C08", "C09", "C10", "C16", "C06"],
